@@ -83,6 +83,7 @@ class Ctx:
         tmo = timeout_ms or self.timeout_ms
         if timeout_ms:
             self.solver.set('timeout', timeout_ms)
+            self.solver.set('rlimit', timeout_ms * 2000)     # deterministic resource bound: nlsat may ignore the timeout
         # watchdog: some z3 tactics (nlsat big-number loops) ignore the soft timeout
         wd = threading.Timer(tmo / 1000.0 * 1.5 + 5, z3.main_ctx().interrupt)
         wd.daemon = True
@@ -95,6 +96,7 @@ class Ctx:
             wd.cancel()
             if timeout_ms:
                 self.solver.set('timeout', self.timeout_ms)
+                self.solver.set('rlimit', 0)
         if r == 'sat':
             self.n_sat += 1
             self._model = self.solver.model()
@@ -174,6 +176,54 @@ def fresh_name(base):
 # decisions
 # ---------------------------------------------------------------------------
 
+class Guide:
+    """concrete valuation of the input variables: in guided (concolic) mode every decision is
+    evaluated instead of being forked; no solver call is made.  Used to produce witnesses
+    (symbolic prediction vs. the real code) where solving the path condition is expensive."""
+
+    def __init__(self, values):
+        self.subs = [(v, (z3.RealVal(x) if v.sort() == z3.RealSort() else (z3.BoolVal(x) if v.sort() == z3.BoolSort() else z3.IntVal(x))))
+                     for v, x in values]
+
+    def eval(self, e, model_completion=True):
+        r = z3.simplify(z3.substitute(e, *self.subs))
+        return r
+
+    def truth(self, c):
+        r = self.eval(c)
+        if z3.is_true(r):
+            return True
+        if z3.is_false(r):
+            return False
+        raise GuideIncomplete('condition does not evaluate under the guide: %s' % r)
+
+    def value(self, e):
+        return model_value(self, e)
+
+
+class GuideIncomplete(Exception):
+    pass
+
+
+def guide():
+    return CTX.cur.notes.get('guide') if CTX is not None and CTX.cur is not None else None
+
+
+def guided_run(fn, g, ctx_=None):
+    """run fn() once along the path selected by the valuation g; returns (result, exception)"""
+    C = ctx_ or CTX
+    p = C.begin_path([])
+    p.notes['guide'] = g
+    try:
+        return fn(), None
+    except Abort:
+        return None, Abort('guide violates an assumption')
+    except Exception as e:
+        return None, e
+    finally:
+        C.begin_path([])
+
+
 def branch(c):
     """z3 Bool (or python bool) -> python bool, forking."""
     if isinstance(c, bool):
@@ -187,6 +237,11 @@ def branch(c):
         return True
     if z3.is_false(c):
         return False
+    g = CTX.cur.notes.get('guide')
+    if g is not None:
+        d = g.truth(c)
+        CTX._slot(d, c if d else z3.Not(c))
+        return d
     C = CTX
     p = C.cur
     if p.pos < len(p.dec):
@@ -230,6 +285,12 @@ def assume(c, check=True):
         return
     C = CTX
     p = C.cur
+    g = p.notes.get('guide')
+    if g is not None:
+        if not g.truth(c):
+            raise Abort('guide violates assumption')
+        C._slot(('A',), c)
+        return
     replay = p.pos < len(C.stack)
     C._slot(('A',), c)
     if not check:
@@ -250,6 +311,8 @@ def choose(n):
         raise Abort('choose(0)')
     C = CTX
     p = C.cur
+    if p.notes.get('guide') is not None and n > 1:
+        raise GuideIncomplete('nondeterministic choice in guided mode: the stub has to decide from the guide')
     if p.pos < len(p.dec):
         d = p.dec[p.pos]
         assert d[0] == 'n', d
@@ -279,6 +342,12 @@ def concretize(e):
         return e.numerator_as_long()
     C = CTX
     p = C.cur
+    g = p.notes.get('guide')
+    if g is not None:
+        v = g.eval(e)
+        v = v.as_long() if z3.is_int_value(v) else int(v.as_fraction())
+        C._slot(('c', v), e == v)
+        return v
     if p.pos < len(p.dec):
         d = p.dec[p.pos]
         if d[0] == 'c':
@@ -339,9 +408,11 @@ def _lazy():
     return list(CTX.cur.notes.get('lazy_ax', ()))
 
 
-def prove(claim, what='property'):
+def prove(claim, what='property', robust=()):
     """Check that claim holds under the current path condition.
-    Returns None if it holds, otherwise the z3 model (counterexample)."""
+    Returns None if it holds, otherwise the z3 model (counterexample).
+    robust: extra constraints that keep a counterexample away from knife edges (the real code runs
+    in floats); they are only used to pick a better model, never to decide the claim."""
     if isinstance(claim, SB):
         claim = claim.e
     if isinstance(claim, bool):
@@ -353,6 +424,11 @@ def prove(claim, what='property'):
     r = CTX.check(*neg)
     if r == 'unsat':
         return None
+    if r == 'sat' and robust and not _lazy():
+        m0 = CTX.model()
+        if CTX.check(*(neg + list(robust)), timeout_ms=10000) == 'sat':
+            return CTX.model()
+        return m0
     lz = _lazy()
     if lz:
         if r == 'sat':
@@ -385,7 +461,7 @@ def current_model(extra=(), timeout_ms=4000):
     """a model of the path condition (including the lazy axioms); None when the
     solver does not produce one quickly -- witnesses are optional"""
     lz = _lazy()
-    r = CTX.check(*extra)
+    r = CTX.check(*extra, timeout_ms=timeout_ms)
     if r != 'sat':
         return None
     m = CTX.model()
